@@ -104,10 +104,23 @@ def dist_obj(name):
     return getattr(gd, name)
 
 
+KWNAMES = {
+    "normal": ("loc", "scale"), "uniform": ("low", "high"), "exponential": ("rate",), "gamma": ("concentration", "rate"),
+    "beta": ("concentration1", "concentration0"), "laplace": ("loc", "scale"), "log_normal": ("loc", "scale"),
+    "student_t": ("df", "loc", "scale"), "half_normal": ("scale",), "inverse_gamma": ("concentration", "scale"),
+    "weibull": ("concentration", "scale"), "cauchy": ("loc", "scale"), "chi2": ("df",), "bernoulli": ("logits",),
+    "geometric": ("logits",), "poisson": ("rate",), "binomial": ("total_count", "logits"),
+    "negative_binomial": ("total_count", "logits"), "user_logistic": ("loc", "scale"),
+}
+
+
 def gen_case(rng, tier):
     name = rng.choice(list(SPECS))
     args = SPECS[name]["p"](rng)
-    return {"dist": name, "args": list(args), "mode": rng.choice(["sample_shape", "mvmap_lanes", "vmap_keys", "jit_sample_shape"]),
+    modes = ["sample_shape", "mvmap_lanes", "vmap_keys", "jit_sample_shape"]
+    if name in KWNAMES:
+        modes += ["kw_scalar_then_batched", "kw_batched_then_scalar"]
+    return {"dist": name, "args": list(args), "mode": rng.choice(modes),
             "key": rng.randint(0, 2**30), "n": 3000 if tier == "quick" else 12000, "vseed": rng.randint(0, 2**30)}
 
 
@@ -128,6 +141,19 @@ def draw(case, key_int, n):
     if mode == "mvmap_lanes":
         lanes = tuple(jnp.broadcast_to(x, (n,) + x.shape) for x in a)
         return gpjax.seed(gpjax.modular_vmap(lambda *p: d.sample(*p), in_axes=0))(key, *lanes)
+    if mode in ("kw_scalar_then_batched", "kw_batched_then_scalar"):
+        # documented keyword parameters; the same distribution object is used scalar and batched in one
+        # process, in both orders ("scalar / batched / sample_shape use")
+        names = KWNAMES[case["dist"]]
+        kw_s = dict(zip(names, a))
+        kw_b = {k_: jnp.broadcast_to(v, (n,)) for k_, v in kw_s.items()}
+        f_s = lambda: d.sample(**kw_s)  # one draw, same (empty) sample_shape as the batched call
+        f_b = lambda: d.sample(**kw_b)
+        if mode == "kw_scalar_then_batched":
+            gpjax.seed(f_s)(jax.random.fold_in(key, 1))
+            return gpjax.seed(f_b)(key)
+        gpjax.seed(f_b)(jax.random.fold_in(key, 1))
+        return jax.vmap(gpjax.seed(f_s))(jax.random.split(key, n))
     return jax.jit(jax.vmap(gpjax.seed(lambda: d.sample(*a))))(jax.random.split(key, n))
 
 
